@@ -42,7 +42,7 @@ def make_case(prop, seed, i, tier):
         if cand:
             k = rng.choice(cand)
             nm = spec["tasks"][k]["name"]
-            how = rng.choice(["skill", "team", "fixed"])
+            how = rng.choice(["skill", "team", "fixed", "fixed-empty"])
             if how == "skill":
                 for tm in spec["teams"]:
                     for w in tm["workers"]:
@@ -55,6 +55,8 @@ def make_case(prop, seed, i, tier):
                 for tm in spec["teams"]:
                     if k in tm["targets"]:
                         tm["targets"].remove(k)
+            elif how == "fixed-empty":
+                spec["tasks"][k]["fixed_workers"] = []
             else:
                 spec["tasks"][k]["fixed_workers"] = ["NOBODY"]
             return dict(prop=prop, i=i, kind="unservable", source="random-unservable-" + how, spec=spec, victim=k)
@@ -106,7 +108,7 @@ def run_case(case):
             res.count("C05.feasible_with_nonFS")
     if case["kind"] == "unservable":
         res.count("C05.unservable_runs")
-        victim = p.workflow.task_list[case["victim"]]
+        victim = m.tasks[case["victim"]]
         if p.status == P.FINISHED_SUCCESS:
             res.violate("C05", "C05/success-with-unservable-task",
                         "task %s has no eligible worker but the project reports SUCCESS (task state %s)" % (victim.ID, victim.state.name))
